@@ -62,10 +62,15 @@ import (
 
 type txReg struct {
 	listener bool
-	style    byte   // t f u i   (listener)   t u (constraint)
+	style    byte   // t f u i   (listener)   t u (constraint; T U: the veto is a *boltz.RecordNotFoundError)
 	types    []byte // c u d C U D
 	vetoes   []txVeto
 }
+
+// a constraint's veto comes in two flavours: a plain error, or a *boltz.RecordNotFoundError (what a
+// constraint returns that looked something up with LoadById and hands that error on)
+func (r txReg) notFoundFlavour() bool { return r.style == 'T' || r.style == 'U' }
+func (r txReg) typed() bool           { return r.style == 't' || r.style == 'T' }
 
 type txVeto struct {
 	kind byte
@@ -73,8 +78,15 @@ type txVeto struct {
 }
 
 type txIxVeto struct {
-	stage byte // b a d
+	stage byte // b a d   (B A D: the veto is a *boltz.RecordNotFoundError)
 	id    string
+}
+
+func txLower(c byte) byte {
+	if c >= 'A' && c <= 'Z' {
+		return c + 'a' - 'A'
+	}
+	return c
 }
 
 type txFields struct {
@@ -281,7 +293,7 @@ func txParseCase(line string) *txCase {
 				m := p.nat()
 				for j := 0; j < m; j++ {
 					st := p.next()
-					if st != "b" && st != "a" && st != "d" {
+					if len(st) != 1 || !strings.Contains("badBAD", st) {
 						panic("bad index stage")
 					}
 					regs[i] = append(regs[i], txIxVeto{stage: st[0], id: p.str()})
@@ -345,6 +357,10 @@ type txVetoErr struct {
 }
 
 func (e *txVetoErr) Error() string { return fmt.Sprintf("veto by %c.%d", e.store, e.reg) }
+
+// EntityType of the RecordNotFoundError flavour of a veto (Field = store, Id = registration index)
+const txVetoEntityType = "verif-veto"
+const txIxVetoEntityType = "verif-ixveto"
 
 type txIxVetoErr struct {
 	store byte
@@ -546,6 +562,9 @@ func (c *txConstraintCore) pre(kind boltz.EntityEventType, id string, parentEven
 	c.r.mu.Unlock()
 	for _, v := range c.reg.vetoes {
 		if v.kind == txKindChar(kind) && v.id == id {
+			if c.reg.notFoundFlavour() {
+				return boltz.NewNotFoundError(txVetoEntityType, string(c.store), strconv.Itoa(c.idx))
+			}
 			return &txVetoErr{store: c.store, reg: c.idx}
 		}
 	}
@@ -604,8 +623,12 @@ func (c *txIxConstraint) stage(stage byte, ctx *boltz.IndexingContext) {
 	c.r.pre = append(c.r.pre, fmt.Sprintf("I.%c.%d.%c.%s.%s", c.store, c.idx, stage, txAbbr(id), ic))
 	c.r.mu.Unlock()
 	for _, v := range c.vetoes {
-		if v.stage == stage && v.id == id {
-			ctx.ErrHolder.SetError(&txIxVetoErr{store: c.store, reg: c.idx})
+		if txLower(v.stage) == stage && v.id == id {
+			if v.stage != stage {
+				ctx.ErrHolder.SetError(boltz.NewNotFoundError(txIxVetoEntityType, string(c.store), strconv.Itoa(c.idx)))
+			} else {
+				ctx.ErrHolder.SetError(&txIxVetoErr{store: c.store, reg: c.idx})
+			}
 			return
 		}
 	}
@@ -637,7 +660,7 @@ func txRegister[E boltz.Entity](r *txRun, store boltz.EntityStore[E], sc byte, r
 			}
 		} else {
 			core := txConstraintCore{r: r, store: sc, idx: i, reg: reg}
-			if reg.style == 't' {
+			if reg.typed() {
 				store.AddEntityConstraint(&txTypedConstraint[E]{core})
 			} else {
 				store.AddUntypedEntityConstraint(&txUntypedConstraint{core})
@@ -800,6 +823,12 @@ func txErrKind(err error) string {
 	case errors.As(err, &nf):
 		return "err:notfound"
 	case errors.As(err, &rnf):
+		switch rnf.EntityType {
+		case txVetoEntityType:
+			return "err:veto:" + rnf.Field + "." + rnf.Id
+		case txIxVetoEntityType:
+			return "err:ixveto:" + rnf.Field + "." + rnf.Id
+		}
 		return "err:fk"
 	case errors.Is(err, errTxLoad):
 		return "err:load"
